@@ -604,6 +604,71 @@ func modeRoute(c *Ctx) {
 		}
 		c.SetField(api, "Middlewares", mws)
 	}
+	// a request dispatched again from inside the chain (a middleware serving a
+	// moved resource by handing a rewritten clone to the same API): the inner
+	// dispatch is a dispatch like any other, with its own template
+	{
+		rr := c.refRouter()
+		var seen []string
+		forwarder := func(next http.Handler) http.Handler {
+			return http.HandlerFunc(func(w http.ResponseWriter, r *http.Request) {
+				if to := r.Header.Get("X-Forward-To"); to != "" {
+					r2 := r.Clone(r.Context())
+					r2.Header.Del("X-Forward-To")
+					r2.Method = r.Header.Get("X-Forward-Method")
+					r2.URL.Path, r2.URL.RawPath, r2.RequestURI = to, "", to
+					handler.ServeHTTP(w, r2)
+					return
+				}
+				next.ServeHTTP(w, r)
+			})
+		}
+		probe := func(next http.Handler) http.Handler {
+			return http.HandlerFunc(func(w http.ResponseWriter, r *http.Request) {
+				if fn, has := c.Reg.Funcs["SchemaPath"]; has {
+					outs := reflect.ValueOf(fn).Call([]reflect.Value{reflect.ValueOf(r)})
+					seen = append(seen, fmt.Sprintf("%s|%v", outs[0].String(), outs[1].Bool()))
+				}
+				next.ServeHTTP(w, r)
+			})
+		}
+		c.SetField(api, "Middlewares", []func(http.Handler) http.Handler{forwarder, probe})
+		n := len(c.Ops)
+		for i := 0; i < n && i < 12; i++ {
+			a, b := c.Ops[i], c.Ops[(i+1)%n]
+			if a.Spec == nil || b.Spec == nil || a.Path == b.Path {
+				continue
+			}
+			pa, pb := c.Base+c.canonicalPath(a), c.Base+c.canonicalPath(b)
+			if tp, _ := rr.Match(a.Method, pa); tp != a.Path {
+				continue
+			}
+			if tp, _ := rr.Match(b.Method, pb); tp != b.Path {
+				continue
+			}
+			seen = nil
+			tr = &trace{}
+			req := NewRequest(a.Method, pa, "", http.Header{"X-Forward-To": {pb}, "X-Forward-Method": {b.Method}}, nil)
+			c.addAllCredentials(req, "good")
+			var pv any
+			func() {
+				defer func() { pv = recover() }()
+				handler.ServeHTTP(newRec(), req)
+			}()
+			c.Stat("requests", 1)
+			c.Stat("forwarded_requests", 1)
+			in := fmt.Sprintf("%s %s forwarded by the outermost middleware to %s %s", a.Method, pa, b.Method, pb)
+			switch {
+			case pv != nil:
+				c.Viol("panic", "serving a request panicked: "+firstLine(fmt.Sprint(pv)), in, nil, nil)
+			case tr.opKey != b.Key || tr.opRuns != 1:
+				c.Viol("misdispatch", "request dispatched to another operation than the reference matcher's", in, b.Key, fmt.Sprintf("%s x%d", tr.opKey, tr.opRuns))
+			case len(seen) != 1 || seen[0] != b.Path+"|true":
+				c.Viol("schema-path", "SchemaPath seen by a middleware is not the matched template", in, b.Path+"|true", seen)
+			}
+		}
+		c.SetField(api, "Middlewares", mws)
+	}
 	// CORS enabled but no handler installed: no pseudo-operations, plain matching
 	if hasCORS {
 		corsInstalled = false
